@@ -4,9 +4,12 @@ import json, os, re, subprocess, sys, time, hashlib, shutil
 
 ROOT = os.path.dirname(os.path.dirname(os.path.abspath(__file__)))
 SPEC = os.path.join(ROOT, "spec")
-OUT = os.path.join(ROOT, "out")
-EVID = os.path.join(ROOT, "evidence")
-HARNESS_DIR = os.path.join(ROOT, "harness")
+# development aid (tools/try_seed_iso.sh): VERIF_OUT relocates out/ and evidence/, VERIF_HARNESS_DIR points at a copy of harness/ whose
+# path dependencies name a scratch copy of the repository, so that a seeded change can be tried while /repo itself stays untouched.
+# Registered commands never set them.
+OUT = os.environ.get("VERIF_OUT") or os.path.join(ROOT, "out")
+EVID = os.path.join(os.environ["VERIF_OUT"], "evidence") if os.environ.get("VERIF_OUT") else os.path.join(ROOT, "evidence")
+HARNESS_DIR = os.environ.get("VERIF_HARNESS_DIR") or os.path.join(ROOT, "harness")
 TLA_CP = "/opt/veriftools/tla/tla2tools.jar:/opt/veriftools/tla/CommunityModules-deps.jar"
 
 
